@@ -9,6 +9,7 @@ KINDS = {
     'C02': {'died', 'panic', 'reopen', 'get', 'ids', 'count', 'update', 'remove'},
     'C09': {'died', 'panic', 'chain'},
     'C16': {'died', 'panic', 'listing'},
+    'C07': {'died', 'panic', 'crash', 'get', 'ids', 'count', 'update', 'remove', 'reopen'},
 }
 
 
@@ -18,7 +19,7 @@ def chain_check(ops, g, snapdir):
     k = 0
     for o in ops:
         own_first.append(k)
-        k += 2 if o['op'] in (10, 11, 20, 21, 22, 30, 40, 41) else 1
+        k += 2 if o['op'] in MUT else 1
     prev_regions = None
     prev_len = None
     live = {}
@@ -27,7 +28,7 @@ def chain_check(ops, g, snapdir):
         if not os.path.exists(p):
             return {'kind': 'died', 'op_index': i, 'what': 'no image after this operation'}
         c = o['op']
-        if c not in (10, 11, 20, 21, 22, 30, 40, 41):
+        if c not in MUT:
             continue
         img = open(p, 'rb').read()
         spans, problems = chain.walk(img)
@@ -303,5 +304,41 @@ def hist_C16(tier):
                 for lim in range(0, m + 3):
                     ops.append({'op': 26, 'fk': fk, 'fa': fa, 'fb': fb, 'off': off, 'lim': lim})
             ops.append({'op': 26, 'fk': 0, 'fa': 1, 'fb': 0, 'off': 10**6, 'lim': 10**6})
+            yield ops
+    return gen
+
+
+def hist_C07(tier):
+    n = 150 if tier == 'quick' else 4000
+
+    def gen(rng, path):
+        for h in range(n):
+            base = gen_coll_history(rng, path, rng.randint(6, 40), reopen=0.0, big=(h % 15 == 0),
+                                    ids=[rng.randrange(1, 1000) for _ in range(rng.randint(1, 4))])
+            ops = []
+            for o in base:
+                if o['op'] in (20, 21, 22) and rng.random() < 0.3:
+                    ops.append({'op': 50, 'j': rng.choice([0, 1, 1, 2, 2, 3]), 'inner': o})
+                    ops.append({'op': 23, 'id': o['id']})
+                    ops.append({'op': 32})
+                    r = rng.random()
+                    if rng.random() < 0.25:
+                        # a record larger than any region an interrupted growth may have left behind
+                        big_id = rng.randrange(2000, 3000)
+                        ops.append({'op': 20, 'id': big_id, 'vec': P(data=random_vec_bytes(rng, base[0]['q'], base[0]['dim'])),
+                                    'meta': P(seed=rng.randrange(10**6), n=rng.choice([4200, 5000, 9000]))})
+                        ops.append({'op': 30, 'mode': 1})
+                        ops.append({'op': 23, 'id': big_id})
+                    if r < 0.5:
+                        # the continuation the property names: remove the affected document, reopen, look again
+                        ops.append({'op': 22, 'id': o['id']})
+                        ops.append({'op': 30, 'mode': 1})
+                        ops.append({'op': 23, 'id': o['id']})
+                        ops.append({'op': 24})
+                    elif r < 0.7:
+                        ops.append({'op': 30, 'mode': rng.choice([0, 1])})
+                        ops.append({'op': 23, 'id': o['id']})
+                else:
+                    ops.append(o)
             yield ops
     return gen
